@@ -503,6 +503,14 @@ fn random_tlv_section(rng: &mut Rng, budget: usize) -> Vec<u8> {
             break;
         }
         v.push(*rng.pick(&[1u8, 2, 3, 4, 5, 0x20, 0x21, 0x30, 0xEE, 0xEA, 0xE0, 0]));
+        if rng.chance(1, 6) && v.len() + 3 + 140 <= budget {
+            // a realistic value under whatever type was drawn
+            let vals = crate::builder::realistic_values();
+            let val = &vals[rng.below(vals.len() as u64) as usize];
+            v.extend_from_slice(&(val.len() as u16).to_be_bytes());
+            v.extend(val);
+            continue;
+        }
         if rng.chance(1, 10) && v.len() + 3 + 90 <= budget {
             // a nested PP2_TYPE_SSL structure
             let val = crate::builder::ssl_value(rng.below(2048) as usize);
@@ -978,8 +986,9 @@ pub fn generate(name: &str, count: usize, rng: &mut Rng, sink: &mut dyn FnMut(Se
             let port_decor: [(&str, &str); 12] = [("+", ""), ("0", ""), ("", " "), ("", "\t"), ("0x", ""), ("", "."), ("", ","), ("\t", ""),
                 ("", "\0"), ("-", ""), ("", "e0"), ("", "_")];
             let fixed4: [&str; 8] = ["0x7f.0.0.1", "0177.0.0.1", "127.1", "2130706433", "1.2.3.4.", "\u{661}.2.3.4", "1.2.3.\u{ff14}", "::ffff:1.2.3.4"];
-            let fixed_port: [&str; 14] = ["\u{ff18}\u{ff10}", "\u{661}\u{662}", "8 0", "0x50", "00", "000", "00000", "0000000",
-                "00000000000000000080", "000000000000000000080", "0000000000000000000000000000000000000443", "+00000000000000000001", "000000000000000000000", "00000000000000000000000065535"];
+            let fixed_port: [&str; 26] = ["\u{ff18}\u{ff10}", "\u{661}\u{662}", "8 0", "0x50", "00", "000", "00000", "0000000",
+                "00000000000000000080", "000000000000000000080", "0000000000000000000000000000000000000443", "+00000000000000000001", "000000000000000000000", "00000000000000000000000065535",
+                "65616", "131072", "4294967296", "4294967376", "8589934592", "4295032831", "18446744073709551616", "18446744073709551696", "2147483648", "4294967295", "99999", "100000"];
             let mut i = 0;
             let mut emit = |toks: &[Vec<u8>], idx: usize, elem: &str, repl: Vec<u8>, sink: &mut dyn FnMut(Session)| {
                 let base: Vec<u8> = toks.concat();
@@ -1125,6 +1134,21 @@ pub fn generate(name: &str, count: usize, rng: &mut Rng, sink: &mut dyn FnMut(Se
                     bytes.extend_from_slice(b"GET / HTTP/1.0\r\n");
                 }
                 sink(Session { sid: format!("v1extra-{}", i), tag: json!({"g": "v1extra"}), chunks: vec![bytes], huge: None, consume: false, inplace: false, prelude: Vec::new() });
+            }
+        }
+        // something in FRONT of an otherwise valid line: a byte order mark, white space, line ends,
+        // NUL, zero-width characters, a TLS record header, another keyword - the line must start the input
+        "v1prefix" => {
+            let prefixes: [&[u8]; 22] = [b"\xef\xbb\xbf", b"\xff\xfe", b"\xfe\xff", b" ", b"\t", b"\r\n", b"\n", b"\r", b"\0", b"\xe2\x80\x8b", b"\xc2\xa0",
+                b"\x16\x03\x01", b"\x1b[0m", b"HTTP ", b"PROXY ", b"PROX", b"P", b"\xef\xbb", b"\xef", b"\xef\xbb\xbf\xef\xbb\xbf", b"\x7f", b"\x00\x00\x00"];
+            let lines: [&[u8]; 3] = [b"PROXY TCP4 192.0.2.1 198.51.100.7 5555 443\r\n", b"PROXY UNKNOWN\r\n", b"PROXY TCP6 ::1 2001:db8::2 1 65535\r\n"];
+            let total = prefixes.len() * lines.len();
+            for i in 0..count.min(total) {
+                let mut bytes = prefixes[i % prefixes.len()].to_vec();
+                bytes.extend_from_slice(lines[i / prefixes.len()]);
+                if i % 4 == 0 { bytes.extend_from_slice(b"GET /"); }
+                let chunks = if i % 2 == 0 { vec![bytes.clone()] } else { split_each(&bytes) };
+                sink(Session { sid: format!("v1prefix-{}", i), tag: json!({"g": "v1prefix"}), chunks, huge: None, consume: false, inplace: false, prelude: Vec::new() });
             }
         }
         // arbitrary bytes over small alphabets, incl. multi-byte characters next to CR
